@@ -64,7 +64,8 @@ Definition merged_matches (descs : bool) (a b : merged) : bool :=
   forallb (fun kv => set_eqb (snd kv) (assoc_l (fst kv) (m_possible b))) (m_possible a) &&
   forallb (fun kv => set_eqb (snd kv) (assoc_l (fst kv) (m_possible a))) (m_possible b) &&
   forallb (fun kv => set_eqb (snd kv) (assoc_l (fst kv) (m_implements b))) (m_implements a) &&
-  forallb (fun kv => set_eqb (snd kv) (assoc_l (fst kv) (m_implements a))) (m_implements b).
+  forallb (fun kv => set_eqb (snd kv) (assoc_l (fst kv) (m_implements a))) (m_implements b) &&
+  list_eqb String.eqb (m_roots a) (m_roots b).
 
 (* ---------- what the harness observed for one ordering of the sources ---------- *)
 
@@ -168,7 +169,8 @@ Definition merged_equiv (a b : merged) : bool :=
   forallb (fun kv => set_eqb (snd kv) (assoc_l (fst kv) (m_possible b))) (m_possible a) &&
   forallb (fun kv => set_eqb (snd kv) (assoc_l (fst kv) (m_possible a))) (m_possible b) &&
   forallb (fun kv => set_eqb (snd kv) (assoc_l (fst kv) (m_implements b))) (m_implements a) &&
-  forallb (fun kv => set_eqb (snd kv) (assoc_l (fst kv) (m_implements a))) (m_implements b).
+  forallb (fun kv => set_eqb (snd kv) (assoc_l (fst kv) (m_implements a))) (m_implements b) &&
+  list_eqb String.eqb (m_roots a) (m_roots b).
 
 (* C10 on the observation alone: same outcome and, descriptions aside, same type system for all orderings *)
 Definition c10_holds (obs : list observed) : bool :=
@@ -270,6 +272,10 @@ Definition c03_holds (internal_loc : string) (sources : list (string * schema)) 
                           | None => false end) all &&
         forallb (def_only all) (m_types m) &&
         refs_closed (m_types m) &&
+        (* a root operation type of any service is that root of the merged schema, and no other type is
+           (otherwise an operation valid against the service would not be one of the gateway) *)
+        list_eqb String.eqb (m_roots m)
+          (map (fun n => if existsb (fun d => String.eqb (df_name d) n) all then n else "") ["Query"; "Mutation"; "Subscription"]) &&
         c03_urls_ok internal_loc srcs internal (ob_urls o)
     | _ => true
     end) obs.
